@@ -49,6 +49,7 @@ var rpcClasses = []rpcClass{
 	{"create-zero-dimension", "error", "create a dataset with dimension 0, then insert two items"},
 	{"create-zero-partitions", "error", "create a dataset with partition count 0, then insert"},
 	{"create-zero-replication", "error", "create a dataset with replication factor 0, then insert"},
+	{"create-negative-space", "error", "Create with space = -1 (a proto3 enum is an int32 on the wire), then two inserts and a search"},
 	{"create-unknown-space", "error", "create a dataset with metric enum value 7, then insert two items"},
 	{"search-k-zero", "ok", "Search with k = 0"},
 	{"search-k-max", "ok", "Search with k = 2^32-1"},
@@ -71,7 +72,7 @@ var rpcClasses = []rpcClass{
 }
 
 func runRpc(c *Ctx) {
-	c.Stats.Rule = "one child process per request class (33 classes: malformed / truncated ids on every write RPC incl. the node-to-node PartitionBatch* RPCs, wrong and zero dimensions, zero partition / replica counts, unknown metric, k = 0 and k = 2^32-1, non-finite numbers, missing metadata, oversized batches, unknown ids) against a real single-node stack on disk, followed by a liveness probe and a restart that replays everything the requests left in the logs; every class is a distinct non-trivial case"
+	c.Stats.Rule = "one child process per request class (34 classes: malformed / truncated ids on every write RPC incl. the node-to-node PartitionBatch* RPCs, wrong and zero dimensions, zero partition / replica counts, unknown metric, k = 0 and k = 2^32-1, non-finite numbers, missing metadata, oversized batches, unknown ids) against a real single-node stack on disk, followed by a liveness probe and a restart that replays everything the requests left in the logs; every class is a distinct non-trivial case"
 	base := os.Getenv("VERIF_TMP")
 	if base == "" {
 		base = os.TempDir()
@@ -253,6 +254,8 @@ func childRpc(args []string) {
 			return createAndUse(&pb.Dataset{Dimension: 2, Space: pb.Space_Euclidean, PartitionCount: 0, ReplicationFactor: 1}, amath.Vector{1, 1})
 		case "create-zero-replication":
 			return createAndUse(&pb.Dataset{Dimension: 2, Space: pb.Space_Euclidean, PartitionCount: 1, ReplicationFactor: 0}, amath.Vector{1, 1})
+		case "create-negative-space":
+			return createAndUse(&pb.Dataset{Dimension: 2, Space: pb.Space(-1), PartitionCount: 1, ReplicationFactor: 1}, amath.Vector{1, 1})
 		case "create-unknown-space":
 			return createAndUse(&pb.Dataset{Dimension: 2, Space: pb.Space(7), PartitionCount: 1, ReplicationFactor: 1}, amath.Vector{1, 1})
 		case "search-k-zero", "search-k-max":
